@@ -263,8 +263,25 @@ func genCase(r *core.Rand, conc bool) []string {
 		x := r.Intn(100)
 		switch {
 		case x < 62:
-			ops = append(ops, genMsg(r, id).op())
+			m := genMsg(r, id)
+			ops = append(ops, m.op())
 			id++
+			// identical repeats of the exchange (same URL, same headers, same id): in a row, with a
+			// query in between, and straddling a reset — each repetition is an evaluation of its own
+			if r.Chance(1, 7) {
+				rep := fmt.Sprintf("rep %d %s", r.Range(1, 4), strings.TrimPrefix(m.op(), "t "))
+				switch r.Intn(4) {
+				case 0:
+					ops = append(ops, "r", rep)
+				case 1:
+					ops = append(ops, "q", rep)
+				case 2:
+					ops = append(ops, rep, "r", rep)
+				default:
+					ops = append(ops, rep)
+				}
+				core.Count("repeat:sequences")
+			}
 		case x < 80:
 			ops = append(ops, "q")
 		case x < 92:
